@@ -64,6 +64,7 @@ type c09Seq struct {
 	indep   *gen.Change
 	extra   []string // further expression plants (%s = an atom)
 	decls   []string // further declaration plants
+	imports string   // import block of the files
 }
 
 // c09SpecialSeq builds the fixed-shape sequences that need more than the chain generator offers.
@@ -156,6 +157,27 @@ func c09SpecialSeq(g *gen.G, which int) *c09Seq {
 			seq.changes, seq.roles = []*gen.Change{c1, c2, c3}, []string{"rewrites", "matches-only-inadmissible-places", "rewrites-too"}
 		}
 		return seq
+	case 8:
+		// a later change written with its '+' line above its '-' line, behind a change that has elisions of its own:
+		// each change pairs its elisions among its own
+		c1 := &gen.Change{Kind: "stmts", Schema: "c09-has-elisions", Meta: x, Lines: []gen.Line{gen.L(' ', "stepOpen(«x»)"), gen.L(' ', "‹1:stmts›"), gen.L('-', "stepClose(«x»)"), gen.L('+', "stepShut(«x»)")}}
+		if g.R.Intn(2) == 0 {
+			c1 = mk("expr", "c09-has-elisions", x, nil, "stepCall(«x», ‹1:args›)", "stepCalled(‹1:args›, «x»)")
+		}
+		c2 := &gen.Change{Kind: "expr", Schema: "c09-plus-line-first", Lines: []gen.Line{gen.L('+', "dialContext(‹1:args›)"), gen.L('-', "dial(‹1:args›)")}}
+		return &c09Seq{changes: []*gen.Change{c1, c2}, roles: []string{"has-elisions", "plus-line-first"}, base: c1, extra: []string{"dial(ctx, %s, timeout)", "dial(%s)"}}
+	case 9:
+		// an earlier change swaps one import for another (the number of imports stays the same); later changes are
+		// guarded by the old and by the new import
+		imp := func(prefix byte, path string) []gen.Line {
+			return []gen.Line{gen.L(prefix, `import "`+path+`"`), gen.L(' ', "")}
+		}
+		c1 := mk("expr", "c09-swaps-import", x, append(imp('-', "example.com/old/swaplog"), imp('+', "example.com/new/swaplog")[0], gen.L(' ', "")), "swaplog.Warn(«x»)", "swaplog.Warning(«x»)")
+		c1.Guards = []gen.Line{gen.L('-', `import "example.com/old/swaplog"`), gen.L('+', `import "example.com/new/swaplog"`), gen.L(' ', "")}
+		c2 := mk("expr", "c09-guarded-by-removed-import", y, imp(' ', "example.com/old/swaplog"), "swapMark(«y»)", "swapOld(«y»)")
+		c3 := mk("expr", "c09-guarded-by-swapped-in-import", y, imp(' ', "example.com/new/swaplog"), "swapMark(«y»)", "swapNew(«y»)")
+		return &c09Seq{changes: []*gen.Change{c1, c2, c3}, roles: []string{"swaps-import", "guarded-by-removed-import", "guarded-by-swapped-in-import"}, base: c1,
+			extra: []string{"swapMark(%s)"}, imports: "import (\n\t\"example.com/old/swaplog\"\n\t\"os\"\n)\n\nvar _ = os.Args\n"}
 	default:
 		// a later change is guarded by an import that only an earlier change adds (and by a package clause that only
 		// an earlier change makes true)
@@ -377,6 +399,10 @@ func runC09(ctx *core.Ctx, idx int) *core.Result {
 		seq = c09SpecialSeq(g, 6)
 	case 23:
 		seq = c09SpecialSeq(g, 7)
+	case 4:
+		seq = c09SpecialSeq(g, 8)
+	case 10:
+		seq = c09SpecialSeq(g, 9)
 	}
 	// files
 	nf := 3
@@ -404,7 +430,7 @@ func runC09(ctx *core.Ctx, idx int) *core.Result {
 			plants = append(plants, gen.Plant{Kind: "decl", Text: seq.decls[f%len(seq.decls)]})
 		}
 		files = append(files, fmt.Sprintf("f%d.go", f))
-		orig = append(orig, g.File(gen.FileOpts{Plants: plants}))
+		orig = append(orig, g.File(gen.FileOpts{Plants: plants, Imports: seq.imports}))
 	}
 	var texts []string
 	for _, c := range seq.changes {
